@@ -44,7 +44,9 @@ Section Sem.
 End Sem.
 
 (* check_if_simulated_instance_norm_is_used.  Shapes are static sizes; -1 / 0 occur in the Reshape target only.
-   Result: the `groups` attribute. *)
+   [affine_guard] = false: as read at bbeff32 (weight_full / bias_full only tested for trailing 1s); true: the repair of
+   C19:instance_to_group_norm:affine-of-length-1 (shape[0] of both must equal the channel count).  The harness probes
+   which one the implementation is.  Result: the `groups` attribute. *)
 Record gn_in := mk_gn_in {
   gn_norm_weight_ones : bool;          (* weight_for_norm constant, all 1 *)
   gn_norm_bias_zeros : bool;           (* bias_for_norm constant, all 0 *)
@@ -56,8 +58,12 @@ Record gn_in := mk_gn_in {
 Fixpoint zlist_eqb (a b : list Z) : bool :=
   match a, b with [] , [] => true | x :: a', y :: b' => Z.eqb x y && zlist_eqb a' b' | _, _ => false end.
 Definition all_ones (l : list Z) : bool := forallb (fun d => Z.eqb d 1) l.
-Definition gn_check (i : gn_in) : option Z :=
-  if gn_norm_weight_ones i && gn_norm_bias_zeros i
+Definition gn_check (affine_guard : bool) (i : gn_in) : option Z :=
+  if (negb affine_guard || match gn_input i, gn_weight_full i, gn_bias_full i with
+                           | _ :: c :: _, w0 :: _, b0 :: _ => Z.eqb w0 c && Z.eqb b0 c
+                           | _, _, _ => false
+                           end)
+     && gn_norm_weight_ones i && gn_norm_bias_zeros i
      && Nat.eqb (length (gn_weight_full i)) (length (gn_input i) - 1) && Nat.eqb (length (gn_bias_full i)) (length (gn_input i) - 1)
      && Nat.eqb (length (gn_input i)) 4
      && all_ones (tl (gn_weight_full i)) && all_ones (tl (gn_bias_full i))
@@ -70,8 +76,8 @@ Definition gn_affine_ok (i : gn_in) : bool :=
   | [_; c; _; _] => Z.eqb (fold_right Z.mul 1%Z (gn_weight_full i)) c && Z.eqb (fold_right Z.mul 1%Z (gn_bias_full i)) c
   | _ => false
   end.
-Inductive gn_case := CGn (i : gn_in) (observed : option Z).
+Inductive gn_case := CGn (affine_guard : bool) (i : gn_in) (observed : option Z).
 Definition gn_agrees (c : gn_case) : bool :=
-  match c with CGn i obs => match gn_check i, obs with Some a, Some b => Z.eqb a b | None, None => true | _, _ => false end end.
+  match c with CGn ag i obs => match gn_check ag i, obs with Some a, Some b => Z.eqb a b | None, None => true | _, _ => false end end.
 Fixpoint gn_disagreeing (k : nat) (cs : list gn_case) : list nat :=
   match cs with [] => [] | c :: t => (if gn_agrees c then [] else [k]) ++ gn_disagreeing (S k) t end.
